@@ -314,8 +314,8 @@ def build(x):
     pr.sub('V-DRAIN', r'self\.ws\.drain\(\.\.\);', 'self.ws.clear();')
     pr.annotate_closure('.filter(', 'r: &Slot<A>', 'keep: bool', 'keep == (r.count > 0)', obl='process.end_only_nonempty_partial')
     pr.annotate_closure('.map(', 'r: Slot<A>', 'o: WindowResult<A::Out>', 'o == wr_new(A::result(r.acc.contents()), r.ts)', obl='process.end_result_of_oldest')
-    pr.insert_before('let ret = if self.exact', '''proof { if self.ws@.len() > 0 { assert(self.slot_ok(0)); } }
-                ''')
+    pr.insert_after('StreamElement::FlushAndRestart | StreamElement::Terminate => {', '''
+                proof { if self.ws@.len() > 0 { assert(self.slot_ok(0)); } }''')
     pr.name_result('r')
     pr.add_spec(r'''
         requires
